@@ -23,20 +23,6 @@ def Consistent (cfg : Cfg) (U : List Submit) : Prop :=
   ∀ a ∈ U, ∀ b ∈ U, ∀ la lb, a.path.head? = some la → b.path.head? = some lb → cfg.H la.der = cfg.H lb.der →
     entryOf cfg a.path a.isPrecert = entryOf cfg b.path b.isPrecert
 
-theorem run_inv (cfg : Cfg) (U : List Submit) : ∀ (hist : List Submit) (st : State), Inv cfg U st → (∀ x ∈ hist, x ∈ U) →
-    Inv cfg U (run cfg st hist).2
-  | [], _, h, _ => h
-  | s :: rest, st, h, hu => by
-    simp only [run]
-    exact run_inv cfg U rest _ (addChain_inv h (hu s (List.mem_cons_self ..))) (fun x hx => hu x (List.mem_cons_of_mem _ hx))
-
-theorem run_find_mono (cfg : Cfg) : ∀ (hist : List Submit) (st : State) {h : Bytes} {s : Stored}, st.find h = some s →
-    (run cfg st hist).2.find h = some s
-  | [], _, _, _, hf => hf
-  | x :: rest, st, _, _, hf => by
-    simp only [run]
-    exact run_find_mono cfg rest _ (addChain_find_mono cfg st x.now x.path x.isPrecert hf)
-
 /-- **queued_leaf.** On success the leaf handed to the backend is the RFC 6962 `MerkleTreeLeaf` of the entry
 derived from the path at the request's clock value, it is identified by the hash of the submitted leaf
 certificate, and its extra data is the rest of the validated path — root included, since the path ends in
